@@ -50,11 +50,6 @@ def lookupD (d : List (List Float)) (i j : Nat) : Float := (rowAt d i).getD j 0
 def optArray (a : List (List Float)) : List (List (Option Float)) :=
   a.map (fun r => r.map (fun x => if x.isNaN then none else some x))
 
-/-- the columns of a `(n_thetas, n_experiments)` pair of arrays as experiments -/
-def plateOfArrays (means vars : List (List Float)) : Plate Float :=
-  (List.range (shape1 means)).map (fun e =>
-    { m := fun t => (rowAt means t).getD e 0, v := fun t => (rowAt vars t).getD e 0 })
-
 def shapes {β : Type} (a : List (List (List β))) : List (List Nat) := a.map (fun m => m.map List.length)
 
 def choose3 (n : Nat) : Nat := n * (n - 1) * (n - 2) / 6
@@ -76,6 +71,10 @@ def handle : List String → Option String
   | ["dbal.split", len, n] => do
       let len ← parseNat? len; let n ← parseNat? n
       pure (showNatList ((arraySplit (List.range len) n).map List.length))
+  | ["dbal.alltriples", n] => do
+      let n ← parseNat? n
+      let ts := allTriples n
+      pure (if ts.isEmpty then "-" else ";".intercalate (ts.map (fun t => s!"{t.1},{t.2.1},{t.2.2}")))
   | ["dbal.pad", pad, arrs] => do
       let pad ← parseF? pad; let arrs ← parse3? arrs
       pure (show3 (padRagged pad arrs))
